@@ -301,7 +301,7 @@ def _planner_part(ck, binary, tier):
         evs = vlib.read_ndjson(tp)
         for e in evs:
             if e.get("e") == "SolveReport":
-                events[e["run"]] = e
+                events[(e["run"], e.get("call", 0))] = e
         rejected = {v["line"] for v in verdicts}
         nreports = sum(1 for e in evs if e.get("e") == "SolveReport")
         if not acc and not verdicts:
@@ -317,7 +317,7 @@ def _planner_part(ck, binary, tier):
             e = evs[v["line"] - 1]
             rejected_runs.add(e["run"])
             for clause in sorted(v["failed"]):
-                key = "report:%s:%s" % (e["planner"], clause)
+                key = "report:%s:%s" % (e["planner"], clause) + (":resumed" if e.get("resumed") else "")
                 st = stats.setdefault(key, {"n": 0, "first": e})
                 st["n"] += 1
                 if e["run"] < st["first"]["run"]:
@@ -352,10 +352,11 @@ def _planner_part(ck, binary, tier):
             p["zeroDurations"] += q["zeroDurations"]
         p["libCheckDisagree"] += e["libCheckDisagree"]
         p["statesOutstandingAfterClearAndDestroy"] += e["statesLeakedBeforeTeardown"]   # C03's subject; recorded only
-        if good is None and _usable_for_gate(e) and e["run"] not in rejected_runs:
+        if good is None and not e.get("resumed") and _usable_for_gate(e) and e["run"] not in rejected_runs:
             good = e
     ck.set("per_planner", per)
     ck.set("reports_rejected", nrej)
+    ck.set("resumed_solve_reports", sum(1 for e in events.values() if e.get("resumed")))
     ck.set("evaluations", len(events))
     # non-trivial: the run added a path with at least one control segment (the oracle had something to
     # replay); distinct: by planner, system, step size and the replayed path itself
